@@ -67,3 +67,17 @@ def select(pid, tier, seed):
         if t == "both" or t == tier:
             out.append(h)
     return out
+
+PROPS["C17"] = {
+    "claim": "encode_utf8, the stream decoder, char_count, char_byte_index, char_pop_front, common_prefix_len, short-option extraction and help detection agree with the Unicode/UTF-8 definitions for EVERY scalar value >= U+0020 except U+007F (char is a symbolic 21-bit variable; pairs/triples of scalars cover every combination of encoded lengths)",
+    "assumptions": ["reference = core's char::encode_utf8 / char equality, executed symbolically alongside"],
+    "harnesses": [
+        H("c17_scalars::c17_encode", bounds="every scalar value; no bound", exhaustive=True),
+        H("c17_scalars::c17_decode", bounds="every scalar value fed to InputGenerator::new(); no bound", exhaustive=True),
+        H("c17_scalars::c17_count_index", bounds="every ordered pair of scalar values", exhaustive=True),
+        H("c17_scalars::c17_pop_front", bounds="every ordered pair of scalar values", exhaustive=True),
+        H("c17_scalars::c17_common_prefix", bounds="every triple of scalar values (prefix, left, right)", exhaustive=True),
+        H("c17_scalars::c17_short_option", bounds="every scalar value other than '-' as a short option", exhaustive=True),
+        H("c17_scalars::c17_encode_twin", kind="twin"),
+    ],
+}
